@@ -443,11 +443,38 @@ impl SourceFile {
     ///
     /// Returns None if the offset is out of bounds.
     pub fn get_line_column(&self, offset: usize) -> Option<LineColumn> {
-        let (_, zero_indexed_line, zero_indexed_column) = self.ariadne().get_byte_line(offset)?;
-        Some(LineColumn {
-            line: zero_indexed_line + 1,
-            column: zero_indexed_column + 1,
-        })
+        let text = self.source_text.as_str();
+        if offset > text.len() {
+            return None;
+        }
+        // Lines are separated by GraphQL line terminators (`\n`, `\r\n`, `\r`),
+        // and columns count characters, as documented on `LineColumn`.
+        let mut line = 1;
+        let mut column = 1;
+        let mut chars = text.char_indices().peekable();
+        while let Some((index, c)) = chars.next() {
+            if offset < index + c.len_utf8() {
+                break;
+            }
+            match c {
+                '\r' if matches!(chars.peek(), Some((_, '\n'))) => {
+                    if offset == index + 1 {
+                        // Between `\r` and `\n`: still on the same line
+                        column += 1;
+                        break;
+                    }
+                    chars.next();
+                    line += 1;
+                    column = 1;
+                }
+                '\n' | '\r' => {
+                    line += 1;
+                    column = 1;
+                }
+                _ => column += 1,
+            }
+        }
+        Some(LineColumn { line, column })
     }
 
     /// Get starting and ending [`LineColumn`]s for the given `range` 0-indexed UTF-8 byte offsets.
